@@ -8,6 +8,7 @@ import json
 import os
 import shutil
 import signal
+import struct
 import sys
 import tempfile
 import warnings
@@ -94,6 +95,17 @@ def make_morph(d):
     return am.ArrayMorphology(vertices=verts, connectivity=conn, id=d.get("id"), physical_mask=mask)
 
 
+def fbits(x):
+    """IEEE-754 bit pattern of a coordinate (as a signed 64-bit integer): end points and reloaded arrays are compared
+    bit for bit with the arrays given (0.0 / -0.0, denormals, huge values, integer-valued and integer-dtype entries)"""
+    return struct.unpack("<q", struct.pack("<d", float(x)))[0]
+
+
+def vbits(a):
+    a = np.asarray(a)
+    return [[fbits(x) for x in row] for row in a.reshape(-1, 4)] if a.size else []
+
+
 def ints(a):
     return [int(x) for x in np.asarray(a).ravel()]
 
@@ -123,7 +135,8 @@ def run_to_root(c):
 # ------------------------------------------------------------------ segment view / conversion
 def seg_json(s):
     p, d = s.proximal, s.distal
-    return [int(s.id), [int(p.x), int(p.y), int(p.z), int(p.diameter)], [int(d.x), int(d.y), int(d.z), int(d.diameter)],
+    return [int(s.id), [fbits(p.x), fbits(p.y), fbits(p.z), fbits(p.diameter)],
+            [fbits(d.x), fbits(d.y), fbits(d.z), fbits(d.diameter)],
             None if s.parent is None else int(s.parent.segments)]
 
 
@@ -159,7 +172,9 @@ def arrays_of(m):
 
 
 def same_arrays(a, b):
-    return all(x.shape == y.shape and np.array_equal(x, y) for x, y in zip(a, b))
+    # numpy equality, equal shapes, and (same dtype) identical bytes: -0.0 must not come back as 0.0
+    return all(x.shape == y.shape and np.array_equal(x, y) and (x.dtype != y.dtype or x.tobytes() == y.tobytes())
+               for x, y in zip(a, b))
 
 
 def morph_json(m, views=False):
@@ -171,7 +186,7 @@ def morph_json(m, views=False):
             extra = {"len": len(m.segments), "view": view_json(m), "conv": conv_json(m)}
         except Exception as e:  # noqa: BLE001
             extra = {"len": None, "view": None, "conv": None, "view_error": exc_name(e)}
-    return {**extra, "verts": [[int(x) for x in row] for row in v.reshape(-1, 4)] if v.size else [],
+    return {**extra, "verts": vbits(v),
             "conn": ints(c), "mask": [bool(x) for x in k.ravel()],
             "shapes": [list(v.shape), list(c.shape), list(k.shape)],
             "dtypes": [str(v.dtype), str(c.dtype), str(k.dtype)],
@@ -314,7 +329,7 @@ def conv_json(m):
 def run_frame(c, tmp, tag):
     """A and B are built from the SAME caller arrays (lists or ndarrays), or B from A's arrays (the idiom of the
     library's tests).  After every operation on one of them the other one and the caller's arrays must be unchanged."""
-    v_ref = [list(r) for r in c["verts"]]
+    v_ref = vbits(c["verts"])
     c_ref = list(c["conn"])
     if c["src"] == "ndarray":
         vin, cin = np.array(c["verts"]), np.array(c["conn"])
@@ -333,9 +348,9 @@ def run_frame(c, tmp, tag):
 
     def snap():
         return {"A.connectivity": ints(A.connectivity), "B.connectivity": ints(B.connectivity),
-                "A.vertices": [list(map(int, r)) for r in np.asarray(A.vertices).reshape(-1, 4)],
-                "B.vertices": [list(map(int, r)) for r in np.asarray(B.vertices).reshape(-1, 4)],
-                "caller.connectivity": ints(cin), "caller.vertices": [list(map(int, r)) for r in np.asarray(vin).reshape(-1, 4)]}
+                "A.vertices": vbits(A.vertices),
+                "B.vertices": vbits(B.vertices),
+                "caller.connectivity": ints(cin), "caller.vertices": vbits(vin)}
 
     frame = []
     err = None
@@ -362,7 +377,7 @@ def run_frame(c, tmp, tag):
     out["r"] = "ok"
     out["connA"], out["connB"] = ints(A.connectivity), ints(B.connectivity)
     out["caller_conn"] = ints(cin)
-    out["caller_unchanged"] = bool(ints(cin) == c_ref and [list(map(int, r)) for r in np.asarray(vin).reshape(-1, 4)] == v_ref)
+    out["caller_unchanged"] = bool(ints(cin) == c_ref and vbits(vin) == v_ref)
     out["frame"] = frame
     # first (uncached) access to the segment views, then the conversions, then the file format
     out["viewA"], out["viewB"] = view_json(A), view_json(B)
